@@ -5,7 +5,7 @@
    column slices, table slices, end marker.  wspec says the writers emit exactly these bytes
    (under any sufficient budget), so the output is a function of the logical content only.
    Statements only; proofs in the *Facts.v files. *)
-From Sbdf Require Import File PrimFacts SevenBit ObjFacts VaFacts SliceFacts FileFacts.
+From Sbdf Require Import File PrimFacts SevenBit ObjFacts VaFacts SliceFacts MdFacts TmFacts FileFacts.
 
 Theorem C03_header : wspec fh_write_cur (Ok tt) [223; 91; 1; 1; 0].
 Proof. exact wspec_fh. Qed.
@@ -63,6 +63,19 @@ Theorem C03_slices_and_end : forall swp sls ncols, slices_ok ncols sls ->
         (Ok tt) (enc_slices swp sls).
 Proof. exact wspec_slices. Qed.
 Print Assumptions C03_slices_and_end.
+
+(* the table-metadata section: table-level entries, then the column metadata folded into one
+   name/type/default list in first-appearance order followed by per-column presence flags *)
+Theorem C03_table_metadata : forall swp t names, tm_ok t -> fold_columns (tcols t) = Ok names ->
+  (forall n, In n names -> tentry_ok n) -> wspec (tm_write swp t) (Ok tt) (enc_tm swp t names).
+Proof. exact wspec_tm. Qed.
+Print Assumptions C03_table_metadata.
+
+(* the whole file: a function of the logical content (meta, slices) only *)
+Theorem C03_file : forall swp meta sls names, wf_file meta sls names ->
+  wspec (write_table swp {| t_meta := meta; t_slices := map caller_ts sls |}) (Ok tt) (enc_file swp meta sls names).
+Proof. exact wspec_file. Qed.
+Print Assumptions C03_file.
 
 (* MSB-first, zero-padded bit arrays *)
 Example C03_bits : pack_bits 9 [true; false; true; true; false; false; false; false; true] = [176; 128].
